@@ -204,17 +204,16 @@ def reply0 : NApi.Adjustment :=
 
 /-! ### guards -/
 
-/-- a key as a plugin may name it: after dropping one removal marker it is non-empty and does
-    not itself start with the marker -/
+/-- a key as a plugin may name it: after dropping one removal marker it does not itself
+    start with the marker (no `--k`) -/
 def keyOk (k : Str) : Bool :=
   match NApi.clearMarker k with
-  | [] => false
+  | [] => true
   | c :: _ => c != '-'
 
-/-- raw keys of one response: each acceptable, no key named twice (a set and the removal of
-    the same key may both be present, in either order) -/
-def keysOk (keys : List Str) : Bool :=
-  keys.all keyOk && decide keys.Nodup
+/-- raw keys of one response: each acceptable (a set and the removal of the same key may both
+    be present, in either order; the same key set twice is rejected by the ledger itself) -/
+def keysOk (keys : List Str) : Bool := keys.all keyOk
 
 /-- the args of one response: empty (not requested), or — after the `UpdateArgs` marker, if
     present — a non-empty command line whose first word is not the empty string -/
